@@ -270,7 +270,10 @@ func jwtCases(k *signKey, alg string, other []*signKey, now time.Time, rnd func(
 		v := v
 		cds = append(cds, cd{fmt.Sprintf("aud=%v", v), func(c M) { c["aud"] = v }})
 	}
-	for _, v := range []string{issuerURL + "/", issuerURL + ".evil.test", "https://IDP.test", "http://idp.test", strings.TrimSuffix(issuerURL, "t"), " " + issuerURL} {
+	for _, v := range []string{issuerURL + "/", issuerURL + ".evil.test", "https://IDP.test", "http://idp.test", strings.TrimSuffix(issuerURL, "t"), " " + issuerURL,
+		// the issuer without its scheme, with a doubled or other-case scheme, scheme-relative, with a trailing dot, query or fragment
+		strings.TrimPrefix(issuerURL, "https://"), "https://" + issuerURL, "HTTPS://" + strings.TrimPrefix(issuerURL, "https://"), "//" + strings.TrimPrefix(issuerURL, "https://"),
+		issuerURL + ".", issuerURL + "?", issuerURL + "#", issuerURL + ":443", "https://user@" + strings.TrimPrefix(issuerURL, "https://")} {
 		v := v
 		cds = append(cds, cd{"iss=" + v, func(c M) { c["iss"] = v }})
 	}
